@@ -63,9 +63,13 @@ def adc_trace_disagrees(p, snaps):
     """the values recorded by in-sequence probes (the default ADC and Adc('Z0'), no probe= override) after EVERY operator
     must be F0 / Z0 of the state at that point (snapshots of the same program stepped operator by operator)"""
     import epgpy as epg
-    seq = []
+    seq, cache = [], {}
     for o in p["ops"]:
-        seq += [prog.build_op(o), epg.ADC, epg.Adc("Z0")]
+        # equal operators are ONE object here (as in user sequences [exc] + [block] * n); the snapshots come from fresh objects
+        key = repr(sorted(o.items(), key=lambda kv: kv[0]))
+        if key not in cache:
+            cache[key] = prog.build_op(o)
+        seq += [cache[key], epg.ADC, epg.Adc("Z0")]
     opts = {"max_nstate": p["max_nstate"]} if p["max_nstate"] else {}
     if p["init"] is not None:
         init = epg.StateMatrix(np.array(p["init"], complex), density=p["pd"])
@@ -117,6 +121,14 @@ def run(ctx):
         else:
             p = prog.gen_program(ctx.rng, maxlen=10 if quick else 16)
             p["init_as_array"] = ctx.rng.random() < 0.5
+            rec = [j for j, o in enumerate(p["ops"]) if o["op"] in ("scalar", "matrix") and o.get("arr0" if o["op"] == "scalar" else "mat0") is not None]
+            if rec and ctx.rng.random() < 0.3:
+                # the same operator (with a recovery term) applied again after the density changed, state count unchanged
+                j = ctx.rng.choice(rec)
+                extra = [{"op": "pd", "p": float(ctx.rng.choice([0.25, 0.5, 2, 3])), "reset": False}]
+                if ctx.rng.random() < 0.5:
+                    extra.append(dict(ctx.rng.choice([o for o in p["ops"] if o["op"] in ("scalar", "matrix")])))
+                p["ops"][j + 1:j + 1] = extra + [dict(p["ops"][j])]
         try:
             snaps = prog.run_impl(p, inplace=True)
             f0, z0 = simulate_probe(p)
